@@ -96,6 +96,14 @@ def step (s : St) (line : String) : St × String :=
     let data := unhex d
     let i := Obj.id H (kindOf k) data
     ({ s with store := (i, Obj.encode (kindOf k) data) :: s.store }, hexOut i ++ " " ++ hexOut (Obj.encode (kindOf k) data))
+  | ["obj.big", k, pat, n] =>
+    -- a large periodic payload: id, kind, length and SHA-1 of the bytes `Store.get` gives back
+    let data := (List.replicate (natOf n) (unhex pat)).flatten
+    let i := Obj.id H (kindOf k) data
+    let st : Store := Store.put H Store.empty (kindOf k) data
+    (s, match Store.get H st i with
+        | .ok (k', d) => hexOut i ++ " " ++ kindOut k' ++ s!" {d.length} " ++ hexOut (H.sha d)
+        | _ => hexOut i ++ " get-err")
   | ["obj.get", i] =>
     (s, resOut (fun kd => kindOut kd.1 ++ " " ++ hexOut kd.2) (Store.get H s.fn (unhex i)))
   | ["readhash", h] => (s, match readHash (unhex h) with | some b => "ok " ++ hexOut b | none => "err")
